@@ -509,6 +509,9 @@ func (s *simSession) runData(ev *BEvent, r io.Reader, p *DataPlan, sc smtp.Statu
 				e = st.V.err()
 			}
 			sc.SetStatus(st.Addr, e)
+			// SetStatus wakes the command loop, which then runs next to this goroutine:
+			// go on at an instant of our own, when it has run to its next blocking point
+			sleepClass(ev.class(), 0)
 		}
 	}
 	ev.park(p.ParkBefore)
